@@ -728,6 +728,12 @@ func New(cfg Config) (*Instance, error) {
 	// the same handler behind the mount-pathed variant (as authboss's own routes use it)
 	mprobe := authboss.MountedMiddleware2(ab, true, authboss.MWRequirements(cfg.MWReqs), fail)(http.HandlerFunc(in.probeHandler))
 	mux.Handle("/mprobe/", mprobe)
+	// the deprecated wrappers (still exported, still used by applications): same table, no 401 mode
+	if cfg.MWFail != "401" {
+		full, tfa := cfg.MWReqs&1 != 0, cfg.MWReqs&2 != 0
+		mux.Handle("/dprobe/", authboss.Middleware(ab, cfg.MWFail == "redirect", full, tfa)(http.HandlerFunc(in.probeHandler)))
+		mux.Handle("/dmprobe/", authboss.MountedMiddleware(ab, true, cfg.MWFail == "redirect", full, tfa)(http.HandlerFunc(in.probeHandler)))
+	}
 
 	var h http.Handler = mux
 	if cfg.Has("expire") {
